@@ -557,6 +557,12 @@ impl File {
         self.csum = csum;
     }
 
+    /// Verification hook: the record a build decision is about to be taken on.
+    #[cfg(feature = "verif-hooks")]
+    pub(crate) fn verif_emit_decide(&self) {
+        vemit!("Decide", "fid": self.id, "gen": self.is_generated, "ovr": self.is_override, "checked": self.checked_runid, "changed": self.changed_runid, "failed": self.failed_runid, "stamp": self.stamp.as_ref().map(|s| s.0.to_string()), "csum": self.csum);
+    }
+
     pub(crate) fn refresh(&mut self, ptx: &mut ProcessTransaction) -> Result<(), RedoError> {
         *self = File::from_id(ptx, self.id)?;
         Ok(())
